@@ -108,7 +108,21 @@ def _ind(lines, n=4):
 
 def statement(draw, env):
     """-> list of source lines; updates env."""
-    c = draw(st.integers(0, 17))
+    c = draw(st.integers(0, 18))
+    if c >= 18:
+        # ';' - inside string literals, and between statements that share a line (at top level / inside a block)
+        env.kinds.add('semicolon')
+        v, w = env.fresh('v'), env.fresh('w')
+        k = draw(st.integers(0, 2))
+        if k == 0:
+            lines = [f"{v} = len('a;b') + {iexpr(draw, env)}", f'{w} = len(";") + {draw(INT_LIT)}']
+        elif k == 1:
+            lines = [f'{v} = {iexpr(draw, env)}; {w} = {v} + {draw(INT_LIT)}']
+        else:
+            lines = ['if True:', f'    {v} = {iexpr(draw, env)}; {w} = {draw(INT_LIT)}']
+        env.ints += [v, w]
+        env.pool_of[v] = env.pool_of[w] = 'own'
+        return lines
     if c == 16:
         # annotations are evaluated when the function is defined / the assignment runs (no 'from __future__ import annotations')
         f, v, w = env.fresh('f'), env.fresh('v'), env.fresh('w')
@@ -298,14 +312,38 @@ def program(draw):
     env = Env(names_int, names_list, funcs, shadowed)
     env.pool_of = pool_of
     lines = []
+    both = [nm for nm in names_int if nm in symbols and any(k == nm for k, _ in cfg)]
+    if both and draw(st.integers(0, 5)) == 0:
+        # a name that is a symbol *and* a config entry, mentioned by nested code only (a function body, a lambda, a comprehension):
+        # the order of the pools must not depend on where in the code the name stands
+        env.kinds.add('nested-only-name')
+        env.pools_used.add('symbol')
+        nm = both[draw(st.integers(0, len(both) - 1))]
+        k = draw(st.integers(0, 2))
+        if k == 0:
+            lines = ['def g0():', f'    return {nm} + {draw(INT_LIT)}']
+            last = 'g0()'
+        elif k == 1:
+            last = f'(lambda: {nm} * 2)()'
+        else:
+            last = f'sum([{nm} for _ in range(2)])'
+        return {'cfg': cfg, 'symbols': symbols, 'lines': lines + [last], 'kinds': sorted(env.kinds), 'pools': sorted(env.pools_used), 'shared_last_line': False}
     for _ in range(draw(st.sampled_from([0, 0, 1, 1, 2, 3, 4, 6]))):
         lines += statement(draw, env)
     last = iexpr(draw, env, 0)
+    if draw(st.integers(0, 7)) == 0:
+        # the final expression shares its line with a statement
+        env.kinds.add('semicolon')
+        lines.append(f'zt = {last}')
+        last = "zt + len(';')"
+        shared_line = True
+    else:
+        shared_line = False
     lines.append(last)
-    return {'cfg': cfg, 'symbols': symbols, 'lines': lines, 'kinds': sorted(env.kinds), 'pools': sorted(env.pools_used)}
+    return {'cfg': cfg, 'symbols': symbols, 'lines': lines, 'kinds': sorted(env.kinds), 'pools': sorted(env.pools_used), 'shared_last_line': shared_line}
 
 
-FSTR_TEXT = st.text(alphabet='abc XYZ019?=.-_', min_size=0, max_size=6)
+FSTR_TEXT = st.text(alphabet='abc XYZ019?=.-_;', min_size=0, max_size=6)
 
 
 @st.composite
